@@ -65,20 +65,20 @@ ParseCos(loc, marker, body0) ==
       tb == TrimStr(body)
       isJs == Len(body) > 4 /\ StartsW(body, "+js(") /\ EndsW(body, ")")
   IN
-  IF unhide /\ loc = "" THEN Rejected                                        \* generic unhide
+  IF unhide /\ locs = {} /\ ~(\E x \in items : x.unsupported) THEN Rejected   \* generic unhide (no location parsed)
   ELSE IF StartsW(m1, "%") \/ StartsW(m1, "$") THEN Rejected                  \* AdGuard script / style markers
   ELSE IF m2 # "" THEN Rejected
   ELSE IF StartsW(loc, "[") THEN Rejected                                     \* location modifiers
   ELSE IF (\E x \in items : x.unsupported) /\ locs = {} THEN Rejected         \* only regex locations
   ELSE IF tb = "" THEN Rejected                                               \* empty rule
   ELSE IF isJs THEN
-       IF locs = {} THEN Rejected                                             \* generic scriptlet (also ',##+js(..)': fix e7fb675)
+       IF locs = {} THEN Rejected                                             \* generic scriptlet (also ',##+js(..)': fix ec20b03)
        ELSE IF (\E l \in locs : l.neg) /\ unhide THEN Rejected
        ELSE [ok |-> TRUE, r |-> [C0 EXCEPT !.locs = locs, !.unhide = unhide, !.kind = "js", !.sel = SubSeq(body, 5, Len(body) - 1)]]
   ELSE IF StartsW(tb, "^") THEN Rejected                                      \* html filtering
   ELSE LET a == Action(tb) IN
        IF ~a.ok THEN Rejected
-       ELSE IF loc = "" /\ a.kind # "hide" THEN Rejected                      \* generic action
+       ELSE IF locs = {} /\ a.kind # "hide" THEN Rejected                     \* generic action
        ELSE IF (\E l \in locs : l.neg) /\ unhide THEN Rejected                \* double negation
        ELSE [ok |-> TRUE, r |-> [C0 EXCEPT !.locs = locs, !.unhide = unhide, !.kind = a.kind, !.sel = a.sel, !.arg = a.arg]]
 =============================================================================
